@@ -325,7 +325,13 @@ def mutation_product(tier: str, stats: Stats) -> list[Violation]:
                     fn(expected)
             except Exception as e:
                 continue   # the reference itself cannot say what was requested (e.g. a transformation on a reshaped object)
-            ops = json.loads(base64.b64decode(rsp['patch'])) if rsp.get('patch') else []
+            try:
+                # Kubernetes decodes []byte fields with the STANDARD base64 alphabet, strictly
+                ops = json.loads(base64.b64decode(rsp['patch'], validate=True)) if rsp.get('patch') else []
+            except Exception as e:
+                add('patch-not-decodable', f"object {json.dumps(obj.get('spec'))} program {names}: the returned patch {rsp['patch'][:60]!r}.. is not standard base64 "
+                                           f"of a JSON document: {type(e).__name__}: {e}")
+                continue
             if ops:
                 stats.nontrivial.add(hash(json.dumps(ops, sort_keys=True)))
             stats.states.add(hash(json.dumps(expected, sort_keys=True)))
